@@ -216,6 +216,12 @@ func rewriteFile(p *packages.Package, f *ast.File, name, root string, rep *Repor
 		r.changed = true
 	}
 
+	// 1b. the plugin library's default channel: os.Stdin / os.Stdout, where they are used as an
+	// io.Reader / io.Writer, are the standard streams of the simulated process
+	if p.PkgPath == Module+"/plugin" {
+		r.stdio()
+	}
+
 	// 2. statements
 	for _, d := range f.Decls {
 		fd, ok := d.(*ast.FuncDecl)
@@ -242,6 +248,78 @@ func rewriteFile(p *packages.Package, f *ast.File, name, root string, rep *Repor
 		r.changed = true
 	}
 	return r.changed, nil
+}
+
+// stdio replaces os.Stdin / os.Stdout by simrt.ProcStdin() / simrt.ProcStdout() wherever the
+// value goes into a place of interface type (assignment to an interface variable, argument
+// for an interface parameter, declaration with an interface type).
+func (r *rewriter) stdio() {
+	std := func(e ast.Expr) string {
+		sel, ok := e.(*ast.SelectorExpr)
+		if !ok {
+			return ""
+		}
+		id, ok := sel.X.(*ast.Ident)
+		if !ok {
+			return ""
+		}
+		pn, ok := r.p.TypesInfo.Uses[id].(*types.PkgName)
+		if !ok || pn.Imported().Path() != "os" {
+			return ""
+		}
+		switch sel.Sel.Name {
+		case "Stdin":
+			return "ProcStdin"
+		case "Stdout":
+			return "ProcStdout"
+		}
+		return ""
+	}
+	isIface := func(t types.Type) bool {
+		if t == nil {
+			return false
+		}
+		_, ok := t.Underlying().(*types.Interface)
+		return ok
+	}
+	swapped, osName := false, "os"
+	swap := func(e *ast.Expr, to types.Type) {
+		if fn := std(*e); fn != "" && isIface(to) {
+			r.rep.Sites = append(r.rep.Sites, fmt.Sprintf("%s: os.%s -> simrt.%s()", r.pos((*e).Pos()), (*e).(*ast.SelectorExpr).Sel.Name, fn))
+			osName = (*e).(*ast.SelectorExpr).X.(*ast.Ident).Name
+			*e = rtCall(fn)
+			swapped = true
+			r.needRT = true
+		}
+	}
+	ast.Inspect(r.f, func(n ast.Node) bool {
+		switch v := n.(type) {
+		case *ast.AssignStmt:
+			if v.Tok == token.ASSIGN && len(v.Lhs) == len(v.Rhs) {
+				for i := range v.Rhs {
+					swap(&v.Rhs[i], r.p.TypesInfo.TypeOf(v.Lhs[i]))
+				}
+			}
+		case *ast.ValueSpec:
+			if v.Type != nil && len(v.Names) == len(v.Values) {
+				for i := range v.Values {
+					swap(&v.Values[i], r.p.TypesInfo.TypeOf(v.Type))
+				}
+			}
+		case *ast.CallExpr:
+			if sig, ok := r.p.TypesInfo.TypeOf(v.Fun).(*types.Signature); ok && !sig.Variadic() && sig.Params().Len() == len(v.Args) {
+				for i := range v.Args {
+					swap(&v.Args[i], sig.Params().At(i).Type())
+				}
+			}
+		}
+		return true
+	})
+	if swapped {
+		// keep the os import in use whatever else the file does with it
+		r.f.Decls = append(r.f.Decls, &ast.GenDecl{Tok: token.VAR, Specs: []ast.Spec{&ast.ValueSpec{
+			Names: []*ast.Ident{ast.NewIdent("_")}, Values: []ast.Expr{&ast.SelectorExpr{X: ast.NewIdent(osName), Sel: ast.NewIdent("Stdin")}}}}})
+	}
 }
 
 func (r *rewriter) pos(p token.Pos) string {
